@@ -27,10 +27,100 @@ class StatusFailure(Exception):
     """ATLAS: retrieval of an absent bank fails the event."""
 
 
+
+class Lazy:
+    """Call-by-need thunk (by-need mode): forced by any use of the value."""
+
+    __slots__ = ("_f", "_v", "_done")
+
+    def __init__(self, f):
+        object.__setattr__(self, "_f", f)
+        object.__setattr__(self, "_done", False)
+        object.__setattr__(self, "_v", None)
+
+    def _force(self):
+        if not self._done:
+            v = self._f()
+            while isinstance(v, Lazy):
+                v = v._force()
+            object.__setattr__(self, "_v", v)
+            object.__setattr__(self, "_done", True)
+        return self._v
+
+    def __getattr__(self, n):
+        return getattr(self._force(), n)
+
+    def __getitem__(self, i):
+        return self._force()[force(i)]
+
+    def __iter__(self):
+        return iter(self._force())
+
+    def __bool__(self):
+        return bool(self._force())
+
+    def __float__(self):
+        return float(self._force())
+
+    def __int__(self):
+        return int(self._force())
+
+    def __index__(self):
+        return self._force().__index__()
+
+    def __abs__(self):
+        return abs(self._force())
+
+    def __neg__(self):
+        return -self._force()
+
+    def __pos__(self):
+        return +self._force()
+
+    def __call__(self, *a):
+        return self._force()(*a)
+
+    def __hash__(self):
+        return hash(self._force())
+
+    def __repr__(self):
+        return repr(self._force())
+
+
+def _binop(name):
+    import operator
+
+    op = getattr(operator, name)
+
+    def fwd(self, o):
+        return op(self._force(), force(o))
+
+    def rev(self, o):
+        return op(force(o), self._force())
+
+    return fwd, rev
+
+
+for _n, _d in [("add", "add"), ("sub", "sub"), ("mul", "mul"), ("truediv", "truediv"), ("mod", "mod"), ("pow", "pow"), ("floordiv", "floordiv")]:
+    _fwd, _rev = _binop(_n)
+    setattr(Lazy, f"__{_d}__", _fwd)
+    setattr(Lazy, f"__r{_d}__", _rev)
+for _n in ["lt", "le", "gt", "ge", "eq", "ne"]:
+    setattr(Lazy, f"__{_n}__", _binop(_n)[0])
+
+
+def force(x):
+    return x._force() if isinstance(x, Lazy) else x
+
+
 class Seq:
     """A sequence; `src` is a zero-argument callable returning a fresh iterator (lazy) or a list (eager)."""
 
-    def __init__(self, src, lazy: bool):
+    need = False
+
+    def __init__(self, src, lazy):
+        self.need = bool(getattr(lazy, "need", False))
+        lazy = bool(lazy)
         self.lazy = lazy
         if lazy:
             self._src = src if callable(src) else (lambda s=src: iter(s))
@@ -41,15 +131,19 @@ class Seq:
         return self._src() if self.lazy else iter(self._items)
 
     def _mk(self, gen_fn):
-        return Seq(gen_fn, True) if self.lazy else Seq(list(gen_fn()), False)
+        r = Seq(gen_fn, True) if self.lazy else Seq(list(gen_fn()), False)
+        r.need = self.need
+        return r
 
     def Select(self, f):
+        if self.need:
+            return self._mk(lambda: (Lazy(lambda x=x: f(x)) for x in self))
         return self._mk(lambda: (f(x) for x in self))
 
     def SelectMany(self, f):
         def g():
             for x in self:
-                for y in _as_seq(f(x)):
+                for y in _as_seq(force(f(x))):
                     yield y
 
         return self._mk(g)
@@ -57,7 +151,7 @@ class Seq:
     def Where(self, p):
         def g():
             for x in self:
-                r = p(x)
+                r = force(p(x))
                 if r:
                     yield x
 
@@ -72,25 +166,25 @@ class Seq:
     def Sum(self):
         acc = 0
         for v in self:
-            acc = acc + v
+            acc = acc + force(v)
         return acc
 
     def Max(self):
-        items = list(self)
+        items = [force(x) for x in self]
         if not items:
             raise Undefined("Max of empty sequence")
         return max(items)
 
     def Min(self):
-        items = list(self)
+        items = [force(x) for x in self]
         if not items:
             raise Undefined("Min of empty sequence")
         return min(items)
 
     def Aggregate(self, seed, f):
-        acc = seed
+        acc = force(seed)
         for v in self:
-            acc = f(acc, v)
+            acc = force(f(acc, v))
         return acc
 
     def First(self):
@@ -108,6 +202,8 @@ class Vec(Seq):
 
     def __init__(self, items, lazy):
         super().__init__(list(items), False)
+        self.need = bool(getattr(lazy, "need", False))
+        lazy = bool(lazy)
         self.lazy = lazy
         if lazy:
             its = list(items)
@@ -115,6 +211,7 @@ class Vec(Seq):
         self._list = list(items)
 
     def __getitem__(self, i):
+        i = force(i)
         if isinstance(i, slice):
             raise Undefined("slice")
         if not isinstance(i, int) or isinstance(i, bool):
@@ -125,6 +222,7 @@ class Vec(Seq):
 
 
 def _as_seq(x):
+    x = force(x)
     if isinstance(x, Seq):
         return x
     raise Undefined("SelectMany over a non-sequence")
@@ -135,6 +233,7 @@ class SeqList(list):
 
 
 def _materialize(x):
+    x = force(x)
     if isinstance(x, Seq):
         return SeqList(_materialize(y) for y in x)
     if isinstance(x, tuple):
@@ -172,6 +271,7 @@ class RefObj:
         return lambda *a: self._call(m, *a)
 
     def _attr(self, name, a):
+        a = force(a)
         if self.o is None:
             self.rt.nullderef(self.cls, "getAttribute")
             return 0.0 if name == "getAttributeFloat" else Vec([], self.rt.lazy)
@@ -182,6 +282,7 @@ class RefObj:
         return Vec(self.o.vec.get("attr:" + a, []), self.rt.lazy)
 
     def _call(self, m, *a):
+        a = tuple(force(x) for x in a)
         rt = self.rt
         if self.o is None:
             rt.nullderef(self.cls, m.name)
@@ -253,7 +354,7 @@ def _libm_fn(name, nargs=1, argtypes=None, restype=ctypes.c_double):
     f.argtypes = argtypes or [ctypes.c_double] * nargs
 
     def call(*a):
-        return f(*a)
+        return f(*[force(x) for x in a])
 
     return call
 
@@ -282,6 +383,7 @@ def math_env() -> Dict[str, Callable]:
 
 
 def _delta_r(eta1, phi1, eta2, phi2):
+    eta1, phi1, eta2, phi2 = force(eta1), force(phi1), force(eta2), force(phi2)
     d_eta = eta1 - eta2
     x = phi1 - phi2
     while x >= math.pi:
@@ -291,22 +393,53 @@ def _delta_r(eta1, phi1, eta2, phi2):
     return math.sqrt(d_eta * d_eta + x * x)
 
 
+class Mode:
+    def __init__(self, name: str):
+        self.name = name
+        self.need = name == "need"
+
+    def __bool__(self):
+        return self.name != "eager"
+
+
+def _thunk(e):
+    lam = ast.Lambda(args=ast.arguments(posonlyargs=[], args=[], kwonlyargs=[], kw_defaults=[], defaults=[]), body=e)
+    return ast.Call(func=ast.Name(id="_L", ctx=ast.Load()), args=[lam], keywords=[])
+
+
 class _WrapDicts(ast.NodeTransformer):
+    def __init__(self, need=False):
+        self.need = need
+
     def visit_Dict(self, node):
         self.generic_visit(node)
+        if self.need:
+            node.values = [_thunk(v) for v in node.values]
         return ast.Call(func=ast.Name(id="_D", ctx=ast.Load()), args=[node], keywords=[])
 
+    def visit_Tuple(self, node):
+        self.generic_visit(node)
+        if self.need and isinstance(node.ctx, ast.Load):
+            node.elts = [_thunk(v) for v in node.elts]
+        return node
 
-def compile_query(text: str):
+    def visit_List(self, node):
+        self.generic_visit(node)
+        if self.need and isinstance(node.ctx, ast.Load):
+            node.elts = [_thunk(v) for v in node.elts]
+        return node
+
+
+def compile_query(text: str, need: bool = False):
     tree = ast.parse(text, mode="eval")
-    tree = ast.fix_missing_locations(_WrapDicts().visit(tree))
+    tree = ast.fix_missing_locations(_WrapDicts(need).visit(tree))
     return compile(tree, "<query>", "eval")
 
 
 class Runtime:
-    def __init__(self, schema: Schema, lazy: bool, extra_env: Optional[Dict[str, Any]] = None):
+    def __init__(self, schema: Schema, lazy, extra_env: Optional[Dict[str, Any]] = None):
         self.schema = schema
-        self.lazy = lazy
+        self.lazy = lazy if isinstance(lazy, Mode) else Mode("lazy" if lazy else "eager")
         self.event: Optional[Event] = None
         self.reqs: List[Tuple[str, str]] = []
         self.nullderefs: List[str] = []
@@ -321,6 +454,7 @@ class Runtime:
         e.update(
             {
                 "_D": AttrDict,
+                "_L": Lazy,
                 "EventDataset": lambda *a: Seq([RefEvent(rt)], rt.lazy),
                 "Select": lambda s, f: s.Select(f),
                 "SelectMany": lambda s, f: s.SelectMany(f),
@@ -332,10 +466,10 @@ class Runtime:
                 "Min": lambda s: s.Min(),
                 "First": lambda s: s.First(),
                 "Aggregate": lambda s, seed, f: s.Aggregate(seed, f),
-                "Range": lambda a, b: Vec(list(range(a, b)), rt.lazy),
+                "Range": lambda a, b: Vec(list(range(force(a), force(b))), rt.lazy),
                 "ResultTTree": lambda s, names, tree, fn: s,
                 "DeltaR": _delta_r,
-                "isNonnull": lambda o: o.o is not None,
+                "isNonnull": lambda o: force(o).o is not None,
                 "__builtins__": {"abs": abs, "pow": pow, "True": True, "False": False, "len": None},
             }
         )
@@ -367,13 +501,19 @@ class Runtime:
 
 
 def evaluate(text: str, schema: Schema, events: List[Event], extra_env=None) -> List[dict]:
-    """Per event: eager and lazy outcomes merged: {'eager':..., 'lazy':..., 'agree': bool}."""
+    """Per event the outcomes under the three evaluation orders a query admits:
+    'eager' (most eager: every Select value computed), 'lazy' (sequences are generators) and
+    'need' (call-by-need: Select values and tuple/dict items are computed only if used).
+    Rows, where defined, are the same in all three; they differ only in which faults are met.
+    'agree' = all three have the same outcome."""
     code = compile_query(text)
+    code_need = compile_query(text, need=True)
     res = []
     for ev in events:
-        oe = Runtime(schema, False, extra_env).run_event(code, ev)
-        ol = Runtime(schema, True, extra_env).run_event(code, ev)
-        res.append({"eager": oe, "lazy": ol, "agree": _same_outcome(oe, ol)})
+        oe = Runtime(schema, Mode("eager"), extra_env).run_event(code, ev)
+        ol = Runtime(schema, Mode("lazy"), extra_env).run_event(code, ev)
+        on = Runtime(schema, Mode("need"), extra_env).run_event(code_need, ev)
+        res.append({"eager": oe, "lazy": ol, "need": on, "agree": _same_outcome(oe, ol) and _same_outcome(oe, on)})
     return res
 
 
